@@ -50,7 +50,7 @@ class Episode(object):
         spq = sum(p * q for q, p, c in self.fills)
         sc = sum(c for q, p, c in self.fills)
         mv = mark * net
-        scale = sum(abs(p * q) for q, p, c in self.fills) + sc + abs(mv)
+        scale = sum(abs(p * q) for q, p, c in self.fills) + sum(abs(c) for q, p, c in self.fills) + abs(mv)
         if net > 0:
             side = [(q, p, c) for q, p, c in self.fills if q > 0]
             avg = (sum(p * q for q, p, c in side) + sum(c for q, p, c in side)) / sum(q for q, p, c in side)
@@ -84,7 +84,10 @@ def _check(pos, ep, mark, where):
 def _remark(pos, ep, old_mark, new_mark, t, where):
     before = (pos.realised_pnl, pos.net_quantity, pos.buy_quantity, pos.sell_quantity)
     u0 = pos.unrealised_pnl
-    pos.update_current_price(new_mark, t)
+    if t is None:
+        pos.update_current_price(new_mark)          # the timestamp is optional
+    else:
+        pos.update_current_price(new_mark, t)
     after = (pos.realised_pnl, pos.net_quantity, pos.buy_quantity, pos.sell_quantity)
     if before != after:
         raise Violation('%s: re-mark %r -> %r changed (realised, net, bought, sold) %r -> %r' % (
@@ -148,7 +151,9 @@ def run_case(case):
                 raise Violation('fill %d: position in %s missing with net %r' % (i, a, net))
             e = _check(cur, ep, price, 'fill %d (%s)' % (i, driver))
             both = any(x[0] > 0 for x in ep.fills) and any(x[0] < 0 for x in ep.fills)
-            open_comm = any(c > 0 for qq, p, c in ep.fills if (qq > 0) == (net > 0)) if net != 0 else False
+            open_comm = any(c != 0 for qq, p, c in ep.fills if (qq > 0) == (net > 0)) if net != 0 else False
+            if any(c < 0 for qq, p, c in ep.fills):
+                cls.add('negative_commission')
             if both and open_comm and net != 0:
                 nt = True
             if both and net != 0 and (ep.fills[0][0] > 0) != (net > 0):
@@ -169,7 +174,10 @@ def run_case(case):
                 tgt = port.pos_handler.positions.get(ma)
             if tgt is None:
                 continue
-            _remark(tgt, eps[ma], last[ma], mprice, t, 'after fill %d (%s)' % (i, driver))
+            no_dt = bool(case.get('marks_without_dt')) and (i + len(last)) % 2 == 0
+            _remark(tgt, eps[ma], last[ma], mprice, None if no_dt else t, 'after fill %d (%s)' % (i, driver))
+            if no_dt:
+                cls.add('mark_without_timestamp')
             last[ma] = mprice
             cls.add('remarked')
         if driver == 'portfolio':
@@ -252,6 +260,8 @@ def ladders(draw):
     fills, marks = [], []
     frac = draw(st.sampled_from([False, False, False, True]))      # non-integer quantities of at least one unit
     comm = st.one_of(st.just(0.0), st.floats(0, 50).map(lambda x: round(x, 4)), st.sampled_from([0.01, 1.0]))
+    if draw(st.sampled_from([False, False, False, True])):      # rebates: the accounting is linear in the commission
+        comm = st.one_of(comm, st.sampled_from([-0.5, -2.0, -0.01]))
     for i in range(n):
         a = draw(st.integers(0, na - 1))
         mode = draw(st.sampled_from(['any', 'any', 'any', 'close', 'flip', 'reduce']))
@@ -272,7 +282,8 @@ def ladders(draw):
         fills.append([a, qty, draw(gen.prices), draw(comm)])
         if draw(st.sampled_from([True, False, False])):
             marks.append([i, draw(st.integers(0, na - 1)), draw(gen.prices)])
-    return {'driver': driver, 'fills': fills, 'marks': marks, 'fractional': frac}
+    return {'driver': driver, 'fills': fills, 'marks': marks, 'fractional': frac,
+            'marks_without_dt': driver != 'portfolio' and draw(st.booleans())}
 
 
 PARTS = [
